@@ -534,6 +534,15 @@ func (e *Engine) Abort(c int) {
 	e.emit(event{Ev: "Abort", C: c})
 }
 
+// Force sets the status of a pending task directly, as a manager would (no abort of its followers).
+func (e *Engine) Force(t int, status string) {
+	m := map[string]state.Status{"Error": state.ErrorStatus, "Hold": state.HoldStatus, "Done": state.DoneStatus, "Undone": state.UndoneStatus}
+	e.st.Lock()
+	e.tasks[t-1].SetStatus(m[status])
+	e.st.Unlock()
+	e.emit(event{Ev: "Force", T: t, Res: status})
+}
+
 func (e *Engine) ResolveWait(t int) {
 	e.st.Lock()
 	tk := e.tasks[t-1]
